@@ -426,3 +426,152 @@ Proof.
   - apply idle_clean_init.
   - apply hs_wf_init.
 Qed.
+
+(* ------------------------------------------------------------ gauges *)
+
+(* the value a gauge holds: the fold of the operations applied to it, from +0.0 *)
+Definition gauge_step (k : key) (g : N) (l : label) : N :=
+  match l with
+  | LGSet k' b => if key_eqb k k' then b else g
+  | LGAdd k' b => if key_eqb k k' then fop fadd g b else g
+  | LGSub k' b => if key_eqb k k' then fop fsub g b else g
+  | _ => g
+  end.
+Definition gauge_at (k : key) (g0 : N) (ls : list label) : N := fold_left (gauge_step k) ls g0.
+Definition gcell (k : key) (s : st) : N := match find k (gs s) with Some g => g | None => 0 end.
+
+Lemma gcell_step k s l s' : step s l = Some s' -> gcell k s' = gauge_step k (gcell k s) l.
+Proof.
+  intros H. unfold gcell.
+  destruct l; simpl in H; try (destruct kd; simpl in H); break_step H; injection H as <-;
+    repeat match goal with |- context [if has ?a ?b then _ else _] => destruct (has a b) eqn:? end; simpl; try reflexivity.
+  - (* register gauge, new *)
+    rewrite find_app. simpl. unfold has in *. destruct (find k (gs s)); [reflexivity|]. destruct (key_eqb k k0); reflexivity.
+  - destruct (key_eqb k k0) eqn:Ek.
+    + apply key_eqb_eq in Ek. subst k0. rewrite find_update_same. unfold has in E. destruct (find k (gs s)); [reflexivity|discriminate].
+    + apply key_eqb_neq in Ek. rewrite find_update_other by assumption. reflexivity.
+  - destruct (key_eqb k k0) eqn:Ek.
+    + apply key_eqb_eq in Ek. subst k0. rewrite find_update_same. unfold has in E. destruct (find k (gs s)); [reflexivity|discriminate].
+    + apply key_eqb_neq in Ek. rewrite find_update_other by assumption. reflexivity.
+  - destruct (key_eqb k k0) eqn:Ek.
+    + apply key_eqb_eq in Ek. subst k0. rewrite find_update_same. unfold has in E. destruct (find k (gs s)); [reflexivity|discriminate].
+    + apply key_eqb_neq in Ek. rewrite find_update_other by assumption. reflexivity.
+Qed.
+
+(* c20_gauge: for every interleaving the cell holds the fold of the gauge's own operations *)
+Theorem gauge_holds_fold k ls : forall s s', run s ls = Some s' -> gcell k s' = gauge_at k (gcell k s) ls.
+Proof.
+  induction ls as [|l ls IH]; intros s s' H; simpl in *.
+  - injection H as <-. reflexivity.
+  - destruct (step s l) as [s1|] eqn:Hs; [|discriminate].
+    rewrite (IH s1 s' H). rewrite (gcell_step k s l s1 Hs). reflexivity.
+Qed.
+
+(* the load of a readout reports what the cell holds at that moment *)
+Theorem gauge_load_reports k s s' : step s (RGauge k) = Some s' ->
+  acc_g s' = acc_g s ++ [(k, gcell k s)].
+Proof.
+  intros H. simpl in H. break_step H. injection H as <-. simpl. unfold gcell.
+  match goal with F : find k (gs s) = Some _ |- _ => rewrite F end. reflexivity.
+Qed.
+
+(* ... which is the last value set when only other keys were touched since *)
+Definition touches_gauge (k : key) (l : label) : bool :=
+  match l with
+  | LGSet k' _ | LGAdd k' _ | LGSub k' _ => key_eqb k k'
+  | _ => false
+  end.
+Theorem gauge_last_set k b g0 pre mid : forallb (fun l => negb (touches_gauge k l)) mid = true ->
+  gauge_at k g0 (pre ++ LGSet k b :: mid) = b.
+Proof.
+  intros Hmid. unfold gauge_at. rewrite fold_left_app. simpl. rewrite key_eqb_refl.
+  induction mid as [|l mid IH]; simpl in *; [reflexivity|].
+  apply andb_prop in Hmid. destruct Hmid as [Hl Hmid].
+  assert (Hs : gauge_step k b l = b).
+  { destruct l; simpl in *; try reflexivity; apply negb_true_iff in Hl; rewrite Hl; reflexivity. }
+  rewrite Hs. apply IH. assumption.
+Qed.
+
+(* ------------------------------------------------------------ what is written for a bucket *)
+
+(* the u32 cast of the value in drain() never loses anything: every midpoint of the (4, 32) layout fits *)
+Lemma mid32_fits i : i < 464 -> bucket_mid 32 i < 2 ^ 32.
+Proof.
+  intros Hi. pose proof (mid_in_bucket 32 i ltac:(lia)) as [_ Hhi].
+  pose proof (upper_fits 32 i ltac:(lia) Hi) as Hfit. unfold max_value in Hfit.
+  assert (0 < 2 ^ 32) by (apply pow2_pos). lia.
+Qed.
+
+Lemma midpoint'_mid i : midpoint' (index_to_lower_bound i) (index_to_upper_bound 32 i) = bucket_mid 32 i.
+Proof. unfold bucket_mid. apply midpoint_same. apply bounds_ordered. lia. Qed.
+
+(* every recorded u32 value v is reported at the midpoint m of its bucket with |m - v| <= v/32 + 1 *)
+Theorem bucket_value_error b i : value_to_index 32 (hist_value b) = Some i ->
+  32 * bucket_mid 32 i <= 33 * hist_value b + 32 /\ 31 * hist_value b <= 32 * bucket_mid 32 i + 32.
+Proof.
+  intros Hi. pose proof (mid_error 32 (hist_value b) 1 i ltac:(lia) ltac:(lia)) as H.
+  rewrite N.div_1_r in H. specialize (H Hi). cbv zeta in H. rewrite !N.mul_1_r in H. lia.
+Qed.
+
+
+(* ------------------------------------------------------------ the count of a drained bucket (after the fix) *)
+
+Definition chunk_total (l : list N) : N := fold_right N.add 0 l.
+
+Lemma chunks_spec fuel : forall c, c <= N.of_nat fuel * u32_max ->
+  chunk_total (chunks fuel c) = c /\ Forall (fun x => 0 < x <= u32_max) (chunks fuel c).
+Proof.
+  induction fuel as [|f IH]; intros c Hc.
+  - simpl in *. assert (c = 0) by lia. subst. split; [reflexivity|constructor].
+  - cbn [chunks]. destruct (N.eqb_spec c 0) as [->|Hne]; [split; [reflexivity|constructor]|].
+    cbv zeta.
+    assert (Hm : N.min c u32_max <= c /\ 0 < N.min c u32_max <= u32_max) by (unfold u32_max; lia).
+    destruct (IH (c - N.min c u32_max)) as [Hs Hf].
+    { unfold u32_max in *. lia. }
+    split.
+    + cbn [chunk_total fold_right]. fold (chunk_total (chunks f (c - N.min c u32_max))). rewrite Hs. lia.
+    + constructor; [lia|assumption].
+Qed.
+
+Definition bucket_count (bs : list (N * N)) : N := fold_right (fun b acc => snd b + acc) 0 bs.
+
+(* every swapped-out count is written completely, whatever its size, in pieces that fit the u32 field, all
+   at the bucket's midpoint *)
+Theorem bucket_written i c : i < 464 ->
+  bucket_count (bucket_of (i, c)) = c /\
+  Forall (fun b => fst b = bucket_mid 32 i /\ 0 < snd b <= u32_max) (bucket_of (i, c)).
+Proof.
+  intros Hi. unfold bucket_of. cbn [fst snd].
+  rewrite midpoint'_mid. unfold wrap32. rewrite N.mod_small by (apply mid32_fits; assumption).
+  assert (Hfuel : c <= N.of_nat (Datatypes.S (N.to_nat (c / u32_max))) * u32_max).
+  { rewrite Nat2N.inj_succ, N2Nat.id. pose proof (N.mul_succ_div_gt c u32_max ltac:(unfold u32_max; lia)). lia. }
+  destruct (chunks_spec _ c Hfuel) as [Hs Hf].
+  split.
+  - clear Hf Hfuel. revert Hs. generalize (chunks (Datatypes.S (N.to_nat (c / u32_max))) c). intros l.
+    generalize c. induction l as [|x l IH]; intros c' Hs; simpl in *; [assumption|].
+    rewrite (IH (c' - x)); lia.
+  - clear Hs. induction Hf; simpl; constructor; auto.
+Qed.
+
+(* an ordinary count is one bucket *)
+Lemma chunks_zero f : chunks f 0 = [].
+Proof. destruct f; reflexivity. Qed.
+
+Lemma chunks_small f c : 0 < c <= u32_max -> chunks (Datatypes.S f) c = [c].
+Proof.
+  intros Hc. cbn [chunks]. destruct (N.eqb_spec c 0); [lia|]. cbv zeta.
+  rewrite N.min_l by lia. replace (c - c) with 0 by lia. rewrite chunks_zero. reflexivity.
+Qed.
+
+Theorem bucket_written_small i c : i < 464 -> 0 < c <= u32_max -> bucket_of (i, c) = [(bucket_mid 32 i, c)].
+Proof.
+  intros Hi Hc. unfold bucket_of. cbn [fst snd].
+  rewrite midpoint'_mid. unfold wrap32. rewrite N.mod_small by (apply mid32_fits; assumption).
+  rewrite chunks_small by assumption. reflexivity.
+Qed.
+
+(* before the fix the count was `count as u32`: 2^32 observations in one bucket were written as 0 *)
+Definition bucket_of_before_fix (ic : N * N) : N * N :=
+  (wrap32 (midpoint' (index_to_lower_bound (fst ic)) (index_to_upper_bound 32 (fst ic))), wrap32 (snd ic)).
+Theorem u32_truncation_refuted : exists i c, i < 464 /\ 0 < c /\ snd (bucket_of_before_fix (i, c)) <> c.
+Proof. exists 5, (2 ^ 32). vm_compute. repeat split; discriminate. Qed.
